@@ -133,7 +133,5 @@ RowSane == \A t \in {0} \cup DOMAIN row.top :
                /\ s.dig => (perc /\ s.set /\ s.min < s.max)
                /\ s.dig => BagWeight(s.cent) <= s.cnt * DEN
 
-ShapesExact == \A e \in Shapes : ShapeExact(e)
-
 Export == IF agg' # <<>> /\ agg = <<>> THEN PrintT(<<"BEH", ToJson(hist')>>) ELSE TRUE
 ===============================================================================
